@@ -25,6 +25,8 @@ CHECKS = {
          TECH + "; exhaustive enumeration of the command table inside seeded layouts"),
  "C18": ("exploration", "Seeded exploration of SCAN iterations over 1-6 simulated nodes with disjoint key sets (0-200 keys), scripted page sequences (empty pages, repeated elements) and arbitrary node cursors below 2^48 (boundary values included); adaptive clients iterate from cursor 0 with random MATCH/COUNT, several iterations and wild client-supplied cursors run concurrently; oracle: cursor 0 is reached within (sum of node pages + nodes + 1) calls, no phantom key, every matching key returned, nodes visited in host-list order with exactly their own cursor chains and unchanged MATCH/COUNT, a cursor past the last node gets the terminating reply, any client cursor gets exactly one reply.", "4.C18",
          TECH + "; scripted peers with adaptive client and exact call-chain oracle"),
+ "C20": ("exploration", "The scenario generators of C01 (valid, invalid and unsupported requests), C02 (backend resets, closes, crashes, host removal/replacement), C04 (migrations, fail-overs, redirections) and a connection-limit class are reused; every history ends in quiescence, either with every client closing its connection or with Stop while connections are open. In that final state the statistics of the service scope are read through the public stats package: downstream/upstream cx_active = 0, cx_total = cx_destroy_total, rq_total = rq_success_total + rq_failure_total, every Redis command's total = success + error; gauges are sampled every 32 steps for wrap-around. TCP-service histories are covered by the same oracle inside the C05/C06/C09 worlds.", "4.C20",
+         TECH + "; conservation invariants evaluated in quiescent final states"),
 }
 NA = {
 }
